@@ -14,6 +14,7 @@ func init() {
 			"PV-ROLE: end default now; start default (end.After(now) ? now : end).Add(-since); RunE wiring of start/end/step/limit",
 			"FE-INT: len(value) threshold T with 10 <= T < 18 selecting time.Unix(n,0) vs time.Unix(0,n); math.Round on the fractional branch; RFC3339Nano fallback; empty -> default",
 			"since/until of openLog: the resolved range reaches the daemon as the same instants",
+			"FE-BOOL IsInstant (a range query whose ends coincide gets no look-back)",
 		},
 		NotDecided: []string{"float rounding of fractional seconds beyond 'rounded, not truncated'", "model.ParseDuration semantics"},
 		Rules: func(r *Run) {
